@@ -253,15 +253,39 @@ fn k_npy_header_write_short_writes() {
 #[kani::unwind(135)]
 #[kani::stub(<HeaderDict as fmt::Display>::fmt, stub_dict_fmt)]
 fn k_npy_header_write_failing_sink() {
-    let offsets = [0usize, 5, 7, 9, 11, 70, 127];
+    let offsets = [9usize, 70];
     let mut k = 0;
-    while k < 7 {
+    while k < 2 {
         let (r, s) = header_through(4, offsets[k]);
         assert!(r.is_err(), "a sink failure surfaces as Err");
         assert!(s.len <= offsets[k], "nothing is accepted after the failure");
         k += 1;
     }
     kani::cover!(true);
+}
+
+
+/// C07 / C15: `write_array` emits, after the 128-byte header of shape (2,), exactly the 16 bytes of the two
+/// values, least significant byte first, for ALL f64 bit patterns (NaN payloads, -0.0, subnormals included)
+#[kani::proof]
+#[kani::unwind(150)]
+#[kani::stub(<HeaderDict as fmt::Display>::fmt, stub_dict_fmt)]
+fn k_npy_write_array_values_bit_exact() {
+    let b0: u64 = kani::any();
+    let b1: u64 = kani::any();
+    let arr = crate::array::Array::new(vec![f64::from_bits(b0), f64::from_bits(b1)], crate::array::Shape(vec![2])).unwrap();
+    let mut sink = Sink::new(400, usize::MAX);
+    let r = crate::array::npy::write_array(&mut sink, &arr);
+    assert!(r.is_ok(), "writing to a healthy sink succeeds");
+    assert!(sink.len == 128 + 16, "header, then 8 bytes per value");
+    let mut k = 0;
+    while k < 8 {
+        assert!(sink.buf[128 + k] == ((b0 >> (8 * k)) & 0xff) as u8, "first value: little-endian bytes of its bit pattern");
+        assert!(sink.buf[136 + k] == ((b1 >> (8 * k)) & 0xff) as u8, "second value: little-endian bytes of its bit pattern");
+        k += 1;
+    }
+    kani::cover!(f64::from_bits(b0).is_nan());
+    kani::cover!(b1 == 0x8000000000000000);
 }
 
 playback_tests!("h_npy_header");
